@@ -84,30 +84,25 @@ func restoreListeners(r *runState) {
 	}
 }
 
-// storedAncestor: is anc reachable from of by following TS_Links rows upwards (or anc == of)?
+// storedAncestor: is anc reached from of by following TS_Links rows upwards (or anc == of)?
+// One small query per hop (the table has no index, but reading all rows for
+// every connect would make a bulk of n connects quadratic in rows read into Go).
 func storedAncestor(w *pvx.World, anc, of int64) bool {
-	rows, err := pvx.LinkRows(w.SQL)
-	if err != nil {
-		return false
-	}
 	cur := of
-	for n := 0; n <= len(rows)+1; n++ {
+	for n := 0; n < 5000; n++ {
 		if cur == anc {
 			return true
 		}
-		next, found := int64(0), false
-		for _, r := range rows {
-			if r.Child == cur {
-				next, found = r.Parent, true
-				break
-			}
-		}
-		if !found {
+		var next int64
+		if err := w.SQL.QueryRow(`SELECT ParentAgentID FROM TS_Links WHERE LinkAgentID = ? LIMIT 1`, cur).Scan(&next); err != nil {
 			return false
+		}
+		if next == of {
+			return true // the stored rows themselves are cyclic
 		}
 		cur = next
 	}
-	return true // the stored rows themselves are cyclic
+	return true
 }
 
 // restart (sub-check a): returns false when the history is not in a restartable state
